@@ -95,6 +95,13 @@ fn render_inner(st: &Stage, idx: usize) -> String {
         (Role::Emit { n, tag, pad }, Body::External) => format!("xseq {n} {tag} {pad}"),
         (Role::Copy { buf }, Body::External) => format!("xcat {buf}"),
         (Role::Head { k, buf }, Body::External) => format!("xhead {k} {buf}"),
+        (Role::Exit { status, drain }, Body::External) if *status > 128 => {
+            if *drain {
+                format!("xsig {} drain", status - 128)
+            } else {
+                format!("xsig {}", status - 128)
+            }
+        }
         (Role::Exit { status, drain }, Body::External) => {
             if *drain {
                 format!("xexit {status} drain")
@@ -512,8 +519,8 @@ impl C11 {
                     0..=3 => Role::Copy { buf: *rng.pick(&[1u32, 3, 16, 64, 512, 4096]) },
                     4..=5 => Role::Tag { prefix: ["T", "U:", "zz"][rng.below(3) as usize].to_string() },
                     6 if last => Role::Count,
-                    7 if last => Role::Exit { status: *rng.pick(&[0u8, 2, 5]), drain: true },
-                    8 => Role::Exit { status: *rng.pick(&[0u8, 1, 4]), drain: true },
+                    7 if last => Role::Exit { status: *rng.pick(&[0u8, 2, 5, 143]), drain: true },
+                    8 => Role::Exit { status: *rng.pick(&[0u8, 1, 4, 130, 143]), drain: true },
                     _ => Role::Copy { buf: 64 },
                 },
             };
